@@ -389,6 +389,21 @@ func main() {
 			fmt.Fprintf(&fb, "Definition finalizer_target_def_%s : string := %s.\n", c.tag, coqString(cf.wrapper))
 			fmt.Fprintf(&fb, "Definition finalizer_body_%s : string := %s.\n\n", c.tag, coqString(cf.finBody))
 		}
+		fb.WriteString("(* ---- call budgets of the cache methods (translator: harness/srcfacts/skeleton.go) ---- *)\n")
+		fb.WriteString("Inductive stok := TLoad | TStore | TCompute | TLoadAndDelete | TDelete | TClear | TSize | TSnapshot\n  | TNow | TDflt | TWDflt | TCb | TWCb | TFire | TUserFn\n  | TLoadOrStore | TLoadAndStore | TLoadOrCompute | TUnknown.\n\n")
+		for _, c := range []struct {
+			file, recv string
+			items      []string
+			itemType   string
+			tag        string
+		}{{"xsync_map.go", "xsyncMap", []string{"item.go"}, "item", "map"}, {"xsync_mapof.go", "xsyncMapOf", []string{"itemof.go"}, "itemOf", "mapof"}} {
+			txt, err := skeletonFacts(*repo, c.file, c.recv, c.items, c.itemType, c.tag)
+			if err != nil {
+				fmt.Fprintln(os.Stderr, "srcfacts:", err)
+				os.Exit(2)
+			}
+			fb.WriteString(txt)
+		}
 		if err := writeIfChanged(*facts, fb.String()); err != nil {
 			fmt.Fprintln(os.Stderr, "srcfacts:", err)
 			os.Exit(2)
